@@ -4,6 +4,7 @@ every small configuration), IfaceTrace.tla (decisions of the real getScanRange i
 import os
 import random
 import vf
+from checks import wire_tier as wt
 
 LEVEL = "model_checking"
 LEVEL_TEXT = ("TLC evaluates AttachedWins, OverridesWin, VpnIffNoMac and NeverEmptySource on the selection relation for all 55 600 configurations with <= 2 interfaces "
@@ -107,3 +108,6 @@ def run(ctx):
         rest = rest[:info["index"] - 1] + rest[info["index"]:]
     for e in events[:3]:
         ctx.sample(e)
+    # socket-level tier: source MAC / IP (and --srcip / --gwmac overrides) read off the frames of the real binary
+    n3, rej = wt.run_wire(ctx, select=lambda s: s["expect"]["kind"] == "packet", label="c17w", focus="source")
+    wt.report(ctx, "C17", rej)
